@@ -1,0 +1,15 @@
+//go:build verif
+
+package hmtx
+
+// verifRoundTrip is a lemma harness for /verif (gvc): its contract states that
+// decoding the encoded "hhea" and "hmtx" tables gives back the metrics.  It is
+// compiled only with the "verif" build tag and never called.
+//
+// The parameter i is the (arbitrary) glyph index the contract speaks about:
+// stating the lemma for one arbitrary index instead of under a quantifier
+// keeps the proof obligation free of quantifiers in the goal.
+func verifRoundTrip(info *Info, i int) (*Info, error) {
+	hheaData, hmtxData := info.Encode()
+	return Decode(hheaData, hmtxData)
+}
